@@ -165,34 +165,57 @@ func c13natives(c *engine.Ctx, p *engine.Prog) {
 					}
 				}
 				x, y, op, ok := kcCmp(ft)
-				if ok && (op == token.NEQ || op == token.GTR) && engine.IsLenOf(info, x, key) {
-					if lit, isLit := y.(*ast.BasicLit); isLit && lit.Value == "0" {
-						nonEmpty = true
-					}
+				if ok && (op == token.NEQ || op == token.GTR) && engine.IsLenOf(info, x, key) && kcConstIs(info, y, "0") {
+					nonEmpty = true
+				}
+				if ok && op == token.NEQ && engine.ObjOf(info, x) == key && kcIsIdent(x) && kcConstIs(info, y, `""`) {
+					nonEmpty = true
 				}
 			}
 			kcAt(c, p, "realm-key", f.Name+" rejects ':' in key", ex.Pos(), noColon, "pkey must return only when !strings.Contains(key, \":\")")
 			kcAt(c, p, "realm-key", f.Name+" rejects empty key", ex.Pos(), nonEmpty, "pkey must return only for a non-empty key")
 			// return value
 			rs, isRet := ex.Node.(*ast.ReturnStmt)
-			ok, why := false, "return value is not fmt.Sprintf(\"vm:%s:%s\", <current realm path>, key)"
+			ok, why := false, "return value is not \"vm:\" + <current realm path> + \":\" + key (as Sprintf or concatenation)"
 			if isRet && len(rs.Results) == 1 {
-				if call := kcIsCallTo(info, kcResolve(f, rs.Results[0]), "fmt.Sprintf"); call != nil && len(call.Args) == 3 {
-					fs, okf := kcStrLit(info, call.Args[0])
-					ro := engine.ObjOf(info, call.Args[1])
-					if okf && fs == "vm:%s:%s" && engine.ObjOf(info, call.Args[2]) == key && ro != nil {
-						rd := kcSingleDef(f, ro)
-						if rc := kcIsCallTo(info, rd, "gnovm/stdlibs/internal/execctx.CurrentRealm"); rc != nil {
-							// rlmPath must be the 2nd result
-							engine.InspectBody(f, func(n ast.Node) {
-								as, isAs := n.(*ast.AssignStmt)
-								if isAs && len(as.Lhs) == 2 && len(as.Rhs) == 1 && ast.Unparen(as.Rhs[0]) == rc && engine.ObjOf(info, as.Lhs[1]) == ro {
-									ok = true
-								}
-							})
-						} else {
-							why = "the realm path is `" + engine.ExprString(rd) + "`, expected the 2nd result of execctx.CurrentRealm(m)"
+				// normalise to a sequence of constant strings and variables
+				var seq []ast.Expr // variables; consts collected in lits (lits[i] precedes seq[i])
+				var lits []string
+				cur := ""
+				val := kcResolve(f, rs.Results[0])
+				if call := kcIsCallTo(info, val, "fmt.Sprintf"); call != nil && len(call.Args) >= 1 {
+					if fs, okf := kcStrLit(info, call.Args[0]); okf && strings.Count(fs, "%s") == len(call.Args)-1 && strings.Count(fs, "%") == len(call.Args)-1 {
+						parts := strings.Split(fs, "%s")
+						for i, a := range call.Args[1:] {
+							lits = append(lits, parts[i])
+							seq = append(seq, a)
 						}
+						cur = parts[len(parts)-1]
+					}
+				} else {
+					for _, part := range kcConcatParts(val) {
+						if sv, isC := kcStrLit(info, part); isC {
+							cur += sv
+							continue
+						}
+						lits = append(lits, cur)
+						cur = ""
+						seq = append(seq, part)
+					}
+				}
+				if len(seq) == 2 && cur == "" && lits[0] == "vm:" && lits[1] == ":" && engine.ObjOf(info, seq[1]) == key && kcIsIdent(seq[1]) {
+					ro := engine.ObjOf(info, seq[0])
+					rd := kcSingleDef(f, ro)
+					if rc := kcIsCallTo(info, rd, "gnovm/stdlibs/internal/execctx.CurrentRealm"); rc != nil && ro != nil {
+						// the realm path must be the 2nd result
+						engine.InspectBody(f, func(n ast.Node) {
+							as, isAs := n.(*ast.AssignStmt)
+							if isAs && len(as.Lhs) == 2 && len(as.Rhs) == 1 && ast.Unparen(as.Rhs[0]) == rc && engine.ObjOf(info, as.Lhs[1]) == ro {
+								ok = true
+							}
+						})
+					} else {
+						why = "the realm path is `" + engine.ExprString(rd) + "`, expected the 2nd result of execctx.CurrentRealm(m)"
 					}
 				}
 			}
@@ -281,27 +304,12 @@ func c13sdk(c *engine.Ctx, p *engine.Prog) {
 	S := c08VM + ".(*SDKParams)."
 	// mustHaveModuleKeeper
 	if f := c.MustFunc(S + "mustHaveModuleKeeper"); f != nil {
-		info := f.Info()
 		g := f.Graph()
 		key := kcParam(f, "key")
 		for _, ex := range kcNormalExits(f) {
 			var colon, reg bool
-			var idx types.Object
-			for _, ft := range kcFacts(g, ex) {
-				x, y, op, okc := kcCmp(ft)
-				if okc && op == token.GTR {
-					if lit, isLit := y.(*ast.BasicLit); isLit && lit.Value == "0" {
-						if io := engine.ObjOf(info, x); io != nil {
-							if ic := kcIsCallTo(info, kcSingleDef(f, io), "strings.Index"); ic != nil && len(ic.Args) == 2 && engine.ObjOf(info, ic.Args[0]) == key {
-								if s, oks := kcStrLit(info, ic.Args[1]); oks && s == ":" {
-									colon, idx = true, io
-								}
-							}
-						}
-					}
-				}
-			}
-			for _, ft := range kcFacts(g, ex) {
+			facts := kcFacts(g, ex)
+			for _, ft := range facts {
 				call, isCall := ast.Unparen(ft.Expr).(*ast.CallExpr)
 				if !isCall || !ft.Val || len(call.Args) != 1 {
 					continue
@@ -309,13 +317,13 @@ func c13sdk(c *engine.Ctx, p *engine.Prog) {
 				if se, isSel := call.Fun.(*ast.SelectorExpr); !isSel || se.Sel.Name != "IsRegistered" {
 					continue
 				}
-				md := kcResolve(f, call.Args[0])
-				if sl, isSl := ast.Unparen(md).(*ast.SliceExpr); isSl && sl.Low == nil && sl.High != nil && engine.ObjOf(info, sl.X) == key && engine.ObjOf(info, sl.High) == idx && idx != nil {
-					reg = true
+				reg = true
+				if c13module(f, call.Args[0], key, facts, 2) {
+					colon = true
 				}
 			}
-			kcAt(c, p, "module-registered", f.Name+" requires <module>: prefix", ex.Pos(), colon, "must return only when strings.Index(key, \":\") > 0")
-			kcAt(c, p, "module-registered", f.Name+" requires a registered module", ex.Pos(), reg, "must return only when pmk.IsRegistered(key[:idx]) (un-weakened)")
+			kcAt(c, p, "module-registered", f.Name+" requires <module>: prefix", ex.Pos(), colon, "the name tested must be the non-empty text of key before its first ':' (key[:strings.Index(key, \":\")] with index > 0, or strings.Cut with found && name != \"\")")
+			kcAt(c, p, "module-registered", f.Name+" requires a registered module", ex.Pos(), reg, "must return only when pmk.IsRegistered(<module of key>) (un-weakened)")
 		}
 	}
 	// setWithCheck
@@ -679,4 +687,111 @@ func c13modules(c *engine.Ctx, p *engine.Prog) {
 func c13table(c *engine.Ctx, p *engine.Prog, key string, callers, allow []string) {
 	extra := engine.SetDiff(callers, allow)
 	c.CheckAt("who-may-call", key, "-", len(extra) == 0 && len(callers) > 0, "referenced from "+join(callers)+"; not in the confirmed table: "+join(extra))
+}
+
+// c13module decides whether e denotes, under the given facts of fn, the
+// non-empty text of the string variable key before its first ':':
+//   - key[:idx] with idx := strings.Index(key, ":") and the fact idx > 0;
+//   - the first result of strings.Cut(key, ":") with the facts found and name != "";
+//   - a call of an in-program function passing key whose every return value is such a value
+//     (under the facts holding at that return).
+func c13module(fn *engine.Fn, e ast.Expr, key types.Object, facts []kcFact, depth int) bool {
+	if key == nil || depth < 0 {
+		return false
+	}
+	info := fn.Info()
+	e = ast.Unparen(e)
+	isColon := func(x ast.Expr) bool { s, ok := kcStrLit(info, x); return ok && s == ":" }
+	switch x := e.(type) {
+	case *ast.Ident:
+		obj := info.ObjectOf(x)
+		if d := kcPlainDef(fn, obj); d != nil {
+			return c13module(fn, d, key, facts, depth)
+		}
+		// first result of strings.Cut(key, ":")
+		ok := false
+		engine.InspectBody(fn, func(n ast.Node) {
+			as, isAs := n.(*ast.AssignStmt)
+			if !isAs || len(as.Lhs) != 3 || len(as.Rhs) != 1 || engine.ObjOf(info, as.Lhs[0]) != obj {
+				return
+			}
+			call := kcIsCallTo(info, as.Rhs[0], "strings.Cut")
+			if call == nil || len(call.Args) != 2 || engine.ObjOf(info, call.Args[0]) != key || !isColon(call.Args[1]) {
+				return
+			}
+			found := engine.ObjOf(info, as.Lhs[2])
+			var okFound, okNonEmpty bool
+			for _, ft := range facts {
+				if id, isID := ft.Expr.(*ast.Ident); isID && ft.Val && info.ObjectOf(id) == found && found != nil {
+					okFound = true
+				}
+				a, b, op, okc := kcCmp(ft)
+				if okc && op == token.NEQ && engine.ObjOf(info, a) == obj && kcIsIdent(a) && kcConstIs(info, b, `""`) {
+					okNonEmpty = true
+				}
+				if okc && op == token.GTR && engine.IsLenOf(info, a, obj) && kcConstIs(info, b, "0") {
+					okNonEmpty = true
+				}
+			}
+			if rhs, okd := kcDefs(fn, obj); okFound && okNonEmpty && okd && len(rhs) == 1 {
+				ok = true
+			}
+		})
+		return ok
+	case *ast.SliceExpr:
+		if x.Low != nil || x.High == nil || engine.ObjOf(info, x.X) != key {
+			return false
+		}
+		io := engine.ObjOf(info, x.High)
+		ic := kcIsCallTo(info, kcPlainDef(fn, io), "strings.Index")
+		if ic == nil || len(ic.Args) != 2 || engine.ObjOf(info, ic.Args[0]) != key || !isColon(ic.Args[1]) {
+			return false
+		}
+		for _, ft := range facts {
+			a, b, op, okc := kcCmp(ft)
+			if okc && op == token.GTR && engine.ObjOf(info, a) == io && kcConstIs(info, b, "0") {
+				return true
+			}
+		}
+		return false
+	case *ast.CallExpr:
+		var callee *types.Func
+		switch f := ast.Unparen(x.Fun).(type) {
+		case *ast.Ident:
+			callee, _ = info.Uses[f].(*types.Func)
+		case *ast.SelectorExpr:
+			callee, _ = info.Uses[f.Sel].(*types.Func)
+		}
+		h := fn.Prog.FnOf(callee)
+		if h == nil || h == fn {
+			return false
+		}
+		var hk types.Object
+		for i, a := range x.Args {
+			if engine.ObjOf(info, a) == key && kcIsIdent(a) {
+				hk = paramObj(h, i)
+			}
+		}
+		if hk == nil {
+			return false
+		}
+		if rhs, okd := kcDefs(h, hk); !okd || len(rhs) != 0 {
+			return false
+		}
+		exits := kcNormalExits(h)
+		if len(exits) == 0 {
+			return false
+		}
+		for _, ex := range exits {
+			rs, isRet := ex.Node.(*ast.ReturnStmt)
+			if !isRet || len(rs.Results) != 1 {
+				return false
+			}
+			if !c13module(h, rs.Results[0], hk, kcFacts(h.Graph(), ex), depth-1) {
+				return false
+			}
+		}
+		return true
+	}
+	return false
 }
